@@ -188,9 +188,10 @@ def unit_setattr(kind):
         name = z3.String('name')
         ctx.input('name', VStr(name))
         path.assume(F_lower_ne_hidden(name))
-        parser = {'string': tc.String(), 'boolean': tc.Boolean(), 'linelist': tc.LineList()}[kind]
+        parser = {'string': tc.String(), 'boolean': tc.Boolean(), 'linelist': tc.LineList(), 'portlist': tc.String()}[kind]
         path.heap[('dict', path.heap[('f', cfg.oid, 'parsers')].did)] = ((VStr(name), VConc(parser)),)
-        if kind == 'linelist':
+        if kind in ('linelist', 'portlist'):
+            # ('portlist': a list-valued option whose parser does not wrap, e.g. SocksPort / ORPort with the String parser)
             value = ex.new_list(path, [VStr(z3.String('e0')), VStr(z3.String('e1'))])
         elif kind == 'boolean':
             value = VBool(z3.Bool('flag'))
@@ -213,11 +214,12 @@ def unit_setattr(kind):
                 ctx.oblige('post.boolean_validated_to_0_or_1', p,
                            v.t == z3.If(z3.Bool('flag'), 1, 0) if isinstance(v, VInt) else B(False),
                            clause='scalar options once with their validated value')
-            if ok and kind == 'linelist':
+            if ok and kind in ('linelist', 'portlist'):
                 v = u[0][1]
                 items = ex.list_items(p, v) if isinstance(v, VList) else None
                 ctx.oblige('post.list_assignment_is_tracked_with_its_elements', p,
-                           B(items is not None and len(items) == 2 and ('g', 'tracked', v.lid) in p.heap))
+                           B(items is not None and len(items) == 2 and ('g', 'tracked', v.lid) in p.heap),
+                           clause='including mutating list-valued options in place (the assigned list is a tracked list)')
     return run
 
 
@@ -230,7 +232,7 @@ def units():
     out = [('C10/save/%s' % s, unit_save(s)) for s in ('nothing', 'scalar', 'list2', 'scalar_list', 'list_scalar', 'emptied', 'emptied_scalar')]
     out += [('C10/_save_completed', unit_save_completed()), ('C10/mark_unsaved/new', unit_mark_unsaved(False)),
             ('C10/mark_unsaved/already_pending', unit_mark_unsaved(True))]
-    out += [('C10/__setattr__/%s' % k, unit_setattr(k)) for k in ('string', 'boolean', 'linelist')]
+    out += [('C10/__setattr__/%s' % k, unit_setattr(k)) for k in ('string', 'boolean', 'linelist', 'portlist')]
     return out
 
 
